@@ -13,6 +13,7 @@ import (
 //assume: C12.seq: store, lock, identity provider are nondeterministic stubs (every call may fail independently); the clock is a symbolic instant that does not advance during one request; the 5 s lock-obtain timeout never fires (lock busy for at most 2 rounds); times are 10-digit unix seconds
 //assume: C12.seq: the store hands out a fresh session object on every Load (what both real stores do)
 
+// stored-session loader, one request, every store/lock/provider outcome: stale sessions are refreshed or re-validated under the lock, failures drop the session and clear the cookie, a session is dropped only for a reason
 // verif: unwind=6 also=C13,C01,C14,C11,C07,C09 paths=80000
 func vh_C12_seq() {
 	nowSec := int64(ndInt("now"))
